@@ -141,12 +141,24 @@ def mutations(frame, tier):
     n = len(frame)
     vals = (0x00, 0xFF, None, 'hi') if tier == 'thorough' else (0xFF, None)
     limit = n if tier == 'thorough' else min(n, 24)
+    head = (0x00, 0xFF, None, 'hi')     # length, command code and PFB octets
     for i in range(limit):
-        for v in vals:
+        for v in (head if i < 6 else vals):
             b = frame[i] ^ 0x01 if v is None else (
                 frame[i] ^ 0x80 if v == 'hi' else v)
             if b != frame[i]:
                 out.append(('sub', frame[:i] + bytes([b]) + frame[i + 1:]))
+    # NFC-DEP DEP_REQ / DEP_RES: every PDU type x packet number in the PFB
+    pos = 1 if frame[:1] == b'\xf0' else 0
+    if bytes(frame[pos + 1:pos + 3]) in (b'\xd4\x06', b'\xd5\x07') and \
+            n > pos + 3:
+        pfbs = range(256) if tier == 'thorough' else [
+            t | p for t in (0x00, 0x10, 0x40, 0x50, 0x80, 0x90, 0xC0, 0xE0)
+            for p in range(4)]
+        for v in pfbs:
+            if v != frame[pos + 3]:
+                out.append(('pfb', frame[:pos + 3] + bytes([v]) +
+                            frame[pos + 4:]))
     for k in range(n if tier == 'thorough' else min(n, 12)):
         out.append(('trunc', frame[:k]))
     for ext in (b'\x00', b'\xff', b'\x00\x00', b'\x80\x01'):
